@@ -594,4 +594,9 @@ def arg_names_rule(ctx):
     return arg_names(ctx, 'ARG-NAMES', lambda g: True, ARG_EXC, 600)
 
 
-RULES = [no_stale, records, arg_names_rule, list_space, record_fresh, operand_attr, parabasal, distortion, radii]
+def arg_forward_rule(ctx):
+    from .common import arg_forward
+    return arg_forward(ctx, 'ARG-FORWARD', 30)
+
+
+RULES = [arg_forward_rule, no_stale, records, arg_names_rule, list_space, record_fresh, operand_attr, parabasal, distortion, radii]
